@@ -36,28 +36,62 @@ def build_and_test():
 
 
 def run_demo(src: Path, pid: str):
+    """Build and run the seeder's demonstration against the scratch worktree. BUILD.txt files are
+    free-form, so the compile commands (g++/clang++ lines, possibly commented or indented, with
+    backslash continuations) are extracted and run with every tree/build variable bound to WT."""
     b = src / "BUILD.txt"
-    script = b.read_text() if b.exists() else ""
-    script = re.sub(r"/tmp/seed-(?:base|clean|orig\w*|" + pid + r"\w*)", str(WT), script)
-    script = script.replace(f"/tmp/seed-out/{pid}", str(src))
-    script = re.sub(r"(?m)^(\s*)(TREE|SRC|REPO|ROOT|SRC_TREE|SOURCE|SRCDIR|T)=(\S+)", lambda m: f"{m.group(1)}{m.group(2)}={WT}", script)
-    script = re.sub(r"(?m)^(\s*)(BUILD|BUILD_DIR|BLD|B)=(\S+)", lambda m: f"{m.group(1)}{m.group(2)}={WT}/_build", script)
+    text = b.read_text() if b.exists() else ""
+    text = re.sub(r"/tmp/seed-(?:base|clean|orig\w*|" + pid + r"\w*)", str(WT), text)
+    text = text.replace(f"/tmp/seed-out/{pid}", str(src))
+    lines, cur = [], ""
+    for raw in text.splitlines():
+        l = raw.strip()
+        l = re.sub(r"^#+\s*", "", l)
+        l = re.sub(r"^\$\s+", "", l)
+        if cur:
+            cur += " " + l.rstrip("\\").strip()
+        else:
+            cur = l.rstrip("\\").strip()
+        if not l.endswith("\\"):
+            lines.append(cur)
+            cur = ""
+    if cur:
+        lines.append(cur)
+    env_vars = {v: str(WT) for v in ("SRC", "TREE", "T", "REPO", "ROOT", "SRC_TREE", "SOURCE", "SRCDIR", "R")}
+    env_vars.update({v: str(WT / "_build") for v in ("BUILD", "B", "BLD", "BUILD_DIR", "BDIR")})
+    env_vars["OUT"] = str(src)
+    pre = "".join(f"{k}={v}\n" for k, v in env_vars.items())
+    cmds = [l for l in lines if re.match(r"^(g\+\+|clang\+\+|c\+\+)\s", l)]
     work = Path(f"/tmp/seed-demo-{pid}")
     work.mkdir(exist_ok=True)
-    (work / "run.sh").write_text("set -o pipefail\n" + script + "\n")
-    r = sh(f"cd {src} && bash {work}/run.sh", timeout=1800)
-    out = r.stdout + r.stderr
-    verdict = None
-    m = re.findall(r"exit=(\d+)", out)
-    if m:
-        verdict = "PASS" if m[-1] == "0" else "FAIL"
-    elif "FAIL" in out:
-        verdict = "FAIL"
-    elif "PASS" in out:
-        verdict = "PASS"
+    out_all = ""
+    if (src / "demo.sh").exists():
+        r = sh(f"cd {src} && bash demo.sh {WT} {work}/w", timeout=5400)
+        out_all = r.stdout + r.stderr
+        rc = r.returncode
     else:
-        verdict = "PASS" if r.returncode == 0 else "FAIL"
-    return verdict, out[-600:]
+        exes = []
+        rc = 0
+        for c in cmds:
+            c = c.split(";")[0]
+            m = re.search(r"-o\s+(\S+)", c)
+            exe = m.group(1) if m else "a.out"
+            (work / "build.sh").write_text(pre + c + "\n")
+            r = sh(f"cd {src} && bash {work}/build.sh", timeout=3600)
+            out_all += r.stdout + r.stderr
+            if r.returncode != 0:
+                return "BUILD-ERROR", out_all[-600:]
+            exes.append(exe)
+        if not exes:
+            return "NO-COMMANDS", text[:200]
+        (work / "run.sh").write_text(pre + f"{exes[-1] if exes[-1].startswith('/') or exes[-1].startswith('$') else './' + exes[-1]}\n")
+        r = sh(f"cd {src} && bash {work}/run.sh", timeout=3600)
+        out_all += r.stdout + r.stderr
+        rc = r.returncode
+    tail = out_all[-600:]
+    if rc == 0 and "FAIL" not in out_all.replace("FAILED to", ""):
+        return "PASS", tail
+    return "FAIL", tail
 
 
 def demo_only(pid):
